@@ -80,12 +80,12 @@ def rule_pair(E, R):
         R.check(good_err, rule, CATCH, "a caught panic yields the text recorded by the hook", where=h["span"])
     # f is what catch_unwind runs
     cu = [c for c in exprs(then, "Call") if norm(c.get("callee", "")) == "std::panic::catch_unwind"]
-    R.check(len(cu) == 1 and local_name(cu[0]["args"][0]) == "f", rule, CATCH, "catch_unwind runs f itself", where=h["span"])
+    R.check(len(cu) == 1 and is_param(cu[0]["args"][0], h, 0), rule, CATCH, "catch_unwind runs f itself", where=h["span"])
     # disabled: transparent
     el = t.get("else", {})
     te = tail(el)
     calls_f = te.get("k") == "Call" and norm(te.get("callee", "")) == "core::result::Result::Ok" and \
-        strip(te["args"][0]).get("k") == "Call" and local_name(strip(te["args"][0])["f"]) == "f"
+        strip(te["args"][0]).get("k") == "Call" and is_param(strip(te["args"][0])["f"], h, 0)
     touches = [c for c in exprs(el, "Call") if norm(c.get("callee", "")) in (START, STOP, "std::panic::catch_unwind")]
     R.check(calls_f and not touches, rule, CATCH, "when catching is disabled f runs transparently (no catch_unwind, no level change)", where=h["span"])
     # start increments iff it returns true
@@ -237,7 +237,7 @@ def rule_hook(E, R):
         ok = False
         if c:
             t = tail(c["body"])
-            ok = t.get("k") == "Call" and local_name(t["f"]) == next_name and [local_name(x) for x in t["args"]] == ["info"]
+            ok = t.get("k") == "Call" and local_name(t["f"]) == next_name and [local_name(x) for x in t["args"]] == closure_param_names(clo, 0)[:1]
         R.check(ok, rule, fn, "Continue: the previously installed hook is called with the panic info", where=fall["sp"])
         a = arms.get("Abort")
         ok = bool(a) and any(norm(x.get("callee", "")) == "std::process::abort" for x in exprs(a["body"], "Call"))
@@ -245,12 +245,14 @@ def rule_hook(E, R):
     # the message is part of the recorded text
     hr = E.hir(P + "record_backtrace")
     if hr:
-        pay = [s for s in exprs(hr["body"], "SLet") if s["pat"].get("name") == "payload"]
+        pay = [s for s in exprs(hr["body"], "SLet") if s["pat"].get("k") == "PBinding" and "init" in s and
+               len([c for c in exprs(s["init"], "MethodCall", into_closures=False) if c["m"] == "downcast_ref"]) >= 2]
         dc = [c for c in exprs(pay[0]["init"], "MethodCall") if c["m"] == "downcast_ref"] if pay else []
-        used = any(local_name(p) == "payload" for w in exprs(hr["body"], "Call") if norm(w.get("callee", "")) in ("core::fmt::write",)
+        pname = pay[0]["pat"]["name"] if pay else None
+        used = any(local_name(p) == pname for w in exprs(hr["body"], "Call") if norm(w.get("callee", "")) in ("core::fmt::write",)
                    for p in exprs(w, "Path"))
         R.check(len(dc) == 2 and used, rule, P + "record_backtrace", "the panic payload (&str or String) is written into the recorded text", where=hr["span"])
-        clr = [c for c in exprs(hr["body"], "MethodCall") if c["m"] == "clear" and local_name(c["recv"]) == "bt"]
+        clr = [c for c in exprs(hr["body"], "MethodCall") if c["m"] == "clear" and is_param(c["recv"], hr, 1)]
         R.check(len(clr) == 1, rule, P + "record_backtrace", "the buffer is cleared first (no stale message is kept)", where=hr["span"])
     else:
         R.cannot(rule, P + "record_backtrace", "anchor not found")
